@@ -10,7 +10,7 @@ Definition cb_ran (x : option sdstage) : bool :=
 Definition xbusy (s : state) : bool := match pcx s with XBusy => true | _ => false end.
 Definition rbusy (s : state) : bool := match pcr s with PSdBusy => true | _ => false end.
 Definition in_live (p : pc) : bool := match p with PRunLive | PInHLive _ _ => true | _ => false end.
-Definition in_file (p : pc) : bool := match p with PRunFile | PInHFile _ _ | PJoinRet => true | _ => false end.
+Definition in_file (p : pc) : bool := match p with PRunFile | PInHFile _ _ | PInJoinF | PJoinRet => true | _ => false end.
 
 Definition Inv (s : state) : Prop :=
   (xbusy s = true -> active (sdst s) = true) /\
